@@ -14,6 +14,7 @@ import OFV.Proofs.C13Diag
 import OFV.Proofs.C13Sound
 import OFV.Proofs.C13Herm
 import OFV.Proofs.C13Sound2
+import OFV.Proofs.C13RG
 import Mathlib.Tactic.NormNum
 
 namespace OFV.C13
@@ -230,6 +231,17 @@ theorem spinless_hubbard_hermitian (tol : Rat) (φ : Term → GQ) (a : HubbardAr
     (hφ : ∀ i j, φ [(i, 1), (i, 0), (j, 1), (j, 0)] = φ [(j, 1), (j, 0), (i, 1), (i, 0)]) :
     den (adjF φ) (spinlessFermiHubbard tol a) = (den φ (spinlessFermiHubbard tol a)).conj :=
   spinless_hubbard_hermitian' tol φ a hphs hex ht hu hmu hreg hφ
+
+/-- **RichardsonGaudin, documented form** (every `n`, every `g`): in the exact regime (`ExactRG`: every `+` / `sum` step
+of `qubit_operator`) the Model's `RichardsonGaudin(g, n).qubit_operator` denotes
+`(Σ_p hc_p / 2)·1 + Σ_p (-(p + 1)) Z_p + (g/2) Σ_{p<q} (X_p X_q + Y_p Y_q)` with `hc_p = 2 (p + 1)` — the
+DOCIHamiltonian form with `hr1 = g`, `hr2 = 0` (the `Z_p Z_q` terms vanish) -/
+theorem richardson_gaudin_documented (tol : Rat) (φ : Term → GQ) (m : RG) (h : ExactRG tol m) :
+    denOpt φ (m.qubitOperator tol) =
+      (gsum ((List.range m.n).map m.hc) * half) * φ [] +
+      gsumL ((List.range m.n).map fun p => (-(natGQ (p + 1))) * φ [(p, 3)]) +
+      gsumL ((pairsLt m.n).map fun pq => (m.g * half) * φ [(pq.1, 1), (pq.2, 1)] + (m.g * half) * φ [(pq.1, 2), (pq.2, 2)]) :=
+  rg_documented'' tol φ m h
 
 /-- non-vacuity of the exact-regime hypothesis: the 1 × 1 lattice with `μ = 1` -/
 example : ExactSum (1 / 100000000) []
